@@ -142,6 +142,7 @@ type FuncSpec struct {
 	Pkg       string // package path the contract file belongs to ("" for external spec files)
 	External  bool
 	Opts      map[string]string
+	DynCalls  map[string]string // variable name -> "pure" | "noeffect": how calls through that func variable are treated
 }
 
 // SpecFunc is a mathematical function usable in expressions.
@@ -197,4 +198,5 @@ type File struct {
 	Events   []*EventDecl
 	Imports  map[string]string // alias -> import path (spec files)
 	External bool
+	Stable   []string // interface types whose parameterless non-Set methods are stable getters
 }
